@@ -7,7 +7,7 @@ from hypothesis import strategies as st
 
 from .. import hist, wire
 from ..engine import ok, require
-from ..simkit import (ADDRS, MCAST, FakeTransport, HarnessError, ServerRec, Sim, cfg, desc_semantic, install_random, lib_option, make_sd,
+from ..simkit import (ADDRS, MCAST, FakeTransport, HarnessError, ServerRec, Sim, cfg, desc_semantic, install_random, late, lib_option, make_sd,
                       sd, sd_bytes, sent_entries, service, timings)
 from ..vloop import RES
 
@@ -81,7 +81,7 @@ def _step(draw):
 def _case(draw):
     steps = [{"op": "start", "when": ["d", 0.01]}] + draw(st.lists(_step(), min_size=1, max_size=10))
     return {"kind": "script", "tm": draw(_timing()), "n": draw(st.integers(1, 3)), "fr": draw(st.lists(st.sampled_from([0.0, 0.25, 0.5, 1.0]), min_size=1, max_size=4)),
-            "steps": steps, "eg": draw(st.booleans()), "decoy": draw(st.booleans())}
+            "steps": steps, "eg": draw(st.booleans()), "decoy": draw(st.booleans()), "late": draw(st.booleans())}
 
 
 def strategy(tier):
@@ -198,6 +198,7 @@ def run_case(case):
                      CYCLIC_OFFER_DELAY=t["cyc"], ANNOUNCE_TTL=t["ttl"], SEND_COLLECTION_TIMEOUT=t["coll"],
                      REQUEST_RESPONSE_DELAY_MIN=t["rmin"], REQUEST_RESPONSE_DELAY_MAX=t["rmax"])
         tm_prot = tm_inst = tm
+        tm_inst_same = not case.get("decoy")
         if case.get("decoy"):
             # the protocol object and the instances get Timings objects of their own: each carries the case's values for the
             # parameters its role reads and unrelated ones for the parameters that belong to the other role
@@ -207,6 +208,9 @@ def run_case(case):
             tm_inst = timings(INITIAL_DELAY_MIN=t["imin"], INITIAL_DELAY_MAX=t["imax"], REPETITIONS_MAX=t["reps"], REPETITIONS_BASE_DELAY=t["base"],
                               CYCLIC_OFFER_DELAY=t["cyc"], ANNOUNCE_TTL=t["ttl"], SEND_COLLECTION_TIMEOUT=0.033,
                               REQUEST_RESPONSE_DELAY_MIN=0.041, REQUEST_RESPONSE_DELAY_MAX=0.043)
+        # timings given to the constructors or assigned to the objects' Timings afterwards (before anything is started)
+        tm_prot, apply_p = late(tm_prot, bool(case.get("late")))
+        tm_inst, apply_i = (tm_prot, apply_p) if tm_inst_same else late(tm_inst, bool(case.get("late")))
         prot = make_sd(sim, tm_prot)
         ann = prot.announcer
         queued = []
@@ -236,6 +240,8 @@ def run_case(case):
             insts.append(make_instance(i, False))
             ann.announce_service(insts[-1])
         announced = [True] * n
+        apply_p()
+        apply_i()
         started = [False]
         runs = {i: [] for i in range(n)}   # instance -> list of dict(t0, stop)
         pending_answers = []               # (due time, instance) of delayed find answers
